@@ -253,6 +253,20 @@ def TE(h):
         h.empty(b'user%d' % i, b'nothing stored, but a description of some length %d' % i)
 
 
+def TS(h):
+    """the first transaction is as short as a transaction can be (no records, no metadata: 31 bytes)"""
+    h.empty(b'', b'')
+    h.commit([(oid(1), b'a1')], b'u', b'second')
+    h.commit([(oid(1), b'a2')], b'u', b'third')
+
+
+def TX(h):
+    """extension dictionaries whose keys collide with the names the undo log / history entries use"""
+    h.commit([(oid(1), b'a1')], b'u1', b'first', {'id': b'bogus-id', 'time': 0, 'note': 'kept'})
+    h.commit([(oid(1), b'a2')], b'u2', b'second', {'user_name': b'mallory', 'description': b'other', 'size': -1})
+    h.commit([(oid(2), b'b1')], b'u3', b'third', {'tid': b'fake-tid'})
+
+
 def TBIG(h):
     """records larger than the 64 KiB copy chunk: a 150000-byte transaction, then a 70000-byte one, then small ones"""
     h.commit([(oid(1), b'A' * 150000)], b'u', b'large')
@@ -260,7 +274,7 @@ def TBIG(h):
     h.commit([(oid(2), b'b-small')], b'u', b'small')
 
 
-FILE_TEMPLATES = {'T1': T1, 'T2': T2, 'T3': T3, 'T4': T4, 'T5': T5, 'T6': T6, 'T10': T10, 'T2L': T2L, 'T3E': T3E, 'TE': TE, 'TBIG': TBIG}
+FILE_TEMPLATES = {'T1': T1, 'T2': T2, 'T3': T3, 'T4': T4, 'T5': T5, 'T6': T6, 'T10': T10, 'T2L': T2L, 'T3E': T3E, 'TE': TE, 'TBIG': TBIG, 'TS': TS, 'TX': TX}
 MAPPING_TEMPLATES = {'T1': T1, 'T2': T2, 'T3': T3}
 
 
